@@ -23,6 +23,7 @@
 #include <fcntl.h>
 #include <unistd.h>
 #include <time.h>
+#include <signal.h>
 #include <execinfo.h>
 #include <openssl/evp.h>
 #include <openssl/hmac.h>
@@ -298,7 +299,8 @@ typedef struct ep
 static ep_t g_eps[MAXEP];
 static int g_recid = 0;
 static unsigned long long g_chunk_rng = 88172645463325252ULL;
-static int g_forkmode = 0, g_eptimeout = 120, g_leak_seen = 0;
+static int g_forkmode = 0, g_eptimeout = 120, g_leak_seen = 0, g_watchdog = 0;
+static void on_watchdog(int sig) { static const char m[] = "mxdrive: episode time limit exceeded (hang)\n"; (void) sig; if (write(2, m, sizeof(m) - 1) < 0) { } _exit(76); }
 static int g_leakcheck = 0;   /* -l: leak check at every reset (slow) */
 static ep_t *g_cur_cb_ep; /* endpoint whose API call is in progress (for cert callback) */
 
@@ -2279,8 +2281,9 @@ int main(int argc, char **argv)
         else if (!strcmp(argv[i], "-v")) g_verbose = 1;
         else if (!strcmp(argv[i], "-l")) g_leakcheck = 1;
         else if (!strcmp(argv[i], "-F")) g_forkmode = 1;
-        else if (!strcmp(argv[i], "-T") && i + 1 < argc) g_eptimeout = atoi(argv[++i]);
+        else if (!strcmp(argv[i], "-T") && i + 1 < argc) { g_eptimeout = atoi(argv[++i]); g_watchdog = 1; }
     }
+    if (g_watchdog && !g_forkmode) signal(SIGALRM, on_watchdog);
     if (matrixSslOpen() < 0) { fprintf(stderr, "matrixSslOpen failed\n"); return 2; }
     matrixVerifHook = verif_hook;
     if (g_forkmode)
@@ -2360,8 +2363,11 @@ int main(int argc, char **argv)
     while (getline(&line, &cap, in) >= 0)
     {
         g_scriptline++;
+        /* -T without -F: a watchdog per episode - a call that does not return ends the run with exit code 76 */
+        if (g_watchdog && (g_scriptline == 1 || !strncmp(line, "reset", 5))) alarm((unsigned) g_eptimeout);
         run_line(line);
     }
+    alarm(0);
     {
         char r[] = "reset end";
         run_line(r);
